@@ -34,7 +34,7 @@ def run(r: core.Run):
                      "channel capacities 0/1/2/7 — token (kind, text) sequences compared between the real lexer and the model; "
                      "the property's own words (ordered substrings, one terminal token, case/whitespace/printed-form laws) are "
                      "evaluated on the implementation's output; non-trivial = distinct inputs yielding >= 2 tokens")
-    d = os.path.join(core.BUILD, "scratch")
+    d = core.SCRATCH
     os.makedirs(d, exist_ok=True)
     base = os.path.join(d, "C16")
     tie = None
